@@ -1626,7 +1626,7 @@ package sod
 //@ ensures [C02 os.complete] imp(result1 == nil, forallk(id, uint64, imp(has(fi.objectIds, id) && opmatch(operator, fi.objectIds[id].Value, k) && (constrain == nil || exists(x, 0, len(constrain), constrain[x].ObjectId == id)), exists(y, 0, len(result0), result0[y].ObjectId == id))))
 //@ ensures [C02 os.distinct] imp(result1 == nil, forall(y, 0, len(result0), forall(z, y+1, len(result0), result0[y].ObjectId != result0[z].ObjectId)))
 //@ ensures [C13 os.order] imp(result1 == nil, forall(y, 0, len(result0), forall(z, y+1, len(result0), !klt(result0[y].Value, result0[z].Value))))
-//@ ensures [C20 os.fresh] imp(result1 == nil, fresh(arr(result0)) || len(result0) == 0)
+//@ ensures [C20 os.fresh] imp(result1 == nil, fresh(arr(result0)))
 //@ modifies nothing
 //@ allocates Elem[*indexedField], Elem[string], Elem[interface{}], indexedField.Value, indexedField.ObjectId, fieldIndex.Name, fieldIndex.Cast, fieldIndex.Constraints, fieldIndex.Index, fieldIndex.objectIds, fieldIndex.nameSplit, fieldIndex.pos, MapDom[uint64,*indexedField], MapVal[uint64,*indexedField], MapCard[uint64,*indexedField]
 
@@ -1650,7 +1650,7 @@ package sod
 //@ ensures [C02 sa.sound] imp(result.err == nil && sch.coherent, forall(y, 0, len(result.fields), has(idx.ObjectIds, result.fields[y].ObjectId) && result.fields[y].Value == norm(proj(value(db, sch, idx.ObjectIds[result.fields[y].ObjectId]), field)) && opmatch(operator, result.fields[y].Value, k) && imp(constrain != nil, exists(x, 0, len(constrain), constrain[x].ObjectId == result.fields[y].ObjectId))))
 //@ ensures [C02 sa.complete] imp(result.err == nil && sch.coherent, forallk(u, string, imp(has(idx.uuids, u) && opmatch(operator, norm(proj(value(db, sch, u), field)), k) && (constrain == nil || exists(x, 0, len(constrain), constrain[x].ObjectId == idx.uuids[u])), exists(y, 0, len(result.fields), result.fields[y].ObjectId == idx.uuids[u]))))
 //@ ensures [C02 sa.distinct] imp(result.err == nil && sch.coherent, forall(y, 0, len(result.fields), forall(z, y+1, len(result.fields), result.fields[y].ObjectId != result.fields[z].ObjectId)))
-//@ ensures [C20 sa.fresh] imp(result.err == nil, fresh(arr(result.fields)) || len(result.fields) == 0)
+//@ ensures [C20 sa.fresh] imp(result.err == nil, fresh(arr(result.fields)))
 //@ ensures [C01 sa.wf] wfDB(db) && has(db.schemas, T) && db.schemas[T] == sch && sch.ObjectIndex == idx
 //@ ensures [C17 sa.readonly] FSk == old(FSk) && FSc == old(FSc) && asyncwSame(db)
 //@ ensures [C01 sa.others] db.schemas == old(db.schemas) && forallk(t, string, has(db.schemas, t) == old(has(db.schemas, t)) && db.schemas[t] == old(db.schemas[t]))
@@ -1689,3 +1689,135 @@ package sod
 //@ loop 2 invariant [f-complete] imp(sch.coherent, forall(j, 0, p, imp(letin(u, iter.uuids[j], opmatch(operator, norm(proj(old(value(db, sch, u)), field)), k)), 0 <= dst[j] && dst[j] < len(f) && f[dst[j]].ObjectId == idx.uuids[iter.uuids[j]])))
 //@ modifies iterator.i, MapDom[string,*Schema]@db.schemas, MapVal[string,*Schema]@db.schemas, MapCard[string,*Schema]@db.schemas, Async.routineStarted, MapDom[string,*objectMap]@db.cache.m, MapVal[string,*objectMap]@db.cache.m, MapCard[string,*objectMap]@db.cache.m, MapDom[string,Object], MapVal[string,Object], MapCard[string,Object]
 //@ allocates Elem[string], Elem[*indexedField], Elem[interface{}], indexedField.Value, indexedField.ObjectId, iterator.db, iterator.t, iterator.i, iterator.reverse, iterator.uuids, iterator.tdyn, Search.db, Search.object, Search.fields, Search.limit, Search.reverse, Search.err, Object.content, Object.uuid, Object.stage, objectMap.m, objectMap.RWMutex
+
+// ---- DB.search: indexed or full scan, one specification (C02, C12, C16) ------------------------
+
+// reflection: Constraints.Transform through the pointer held by the interface
+//@ func (*Schema).prepare
+//@ serves C02 C16
+//@ trusted "reflection-bodied (Constraints.Transform): assumed contract, exercised by the bounded stand-in of C16"
+//@ requires s != nil && typeis(value, *interface{}) && cast(vpay(value), *interface{}) != nil
+//@ let p *interface{} := cast(vpay(value), *interface{})
+//@ ensures [C16 prepare] *p == prepv(s, fpath, old(*p))
+//@ modifies Cell[interface{}]@cast(vpay(value), *interface{})
+
+//@ func (*DB).search
+//@ serves C02 C08 C09 C12 C13 C16 C19 C20
+//@ requires [wf] wfDB(db) && o != nil
+//@ requires [C08 locked] H >= 1
+//@ requires [C09 lock-free] SL == 0 && HS == 0 && HM == 0
+//@ requires [constrain] imp(constrain != nil, forall(x, 0, len(constrain), constrain[x] != nil && allocated(constrain[x])) && forall(a, 0, len(constrain), forall(b, a+1, len(constrain), constrain[a].ObjectId != constrain[b].ObjectId)))
+//@ let T string := stypeOf(dyntype(o))
+//@ let v0 interface{} := value
+//@ ghost s *Schema := s
+//@ ghost pv interface{} := cur(value)
+//@ ensures [C02 search.result] result != nil && fresh(result) && result.db == db && wfSearch(result) && imp(result.err == nil, result.object == o && !result.reverse && result.limit == 18446744073709551615)
+//@ ensures [C02 search.schema] imp(result.err == nil, has(db.schemas, T) && db.schemas[T] == s && pv == prepv(s, field, v0))
+//@ ensures [C19 search.unknown-field] imp((old(has(db.schemas, T)) || (has(db.schemas, T) && db.schemas[T].coherent)) && !fieldok(dyntype(o), field), errIs(result.err, ErrUnkownField))
+//@ ensures [C19 search.unsupported-value] imp((old(has(db.schemas, T)) || (has(db.schemas, T) && db.schemas[T].coherent)) && fieldok(dyntype(o), field) && !supported(prepv(db.schemas[T], field, v0)), errIs(result.err, ErrUnknownKeyType))
+//@ ensures [C19 search.unknown-operator] imp((old(has(db.schemas, T)) || (has(db.schemas, T) && db.schemas[T].coherent)) && fieldok(dyntype(o), field) && supported(prepv(db.schemas[T], field, v0)) && rank(norm(prepv(db.schemas[T], field, v0))) == fieldrank(dyntype(o), field) && !knownOp(operator), errIs(result.err, ErrUnkownSearchOperator))
+//@ ensures [C12 C19 search.mistyped] imp((old(has(db.schemas, T)) || (has(db.schemas, T) && db.schemas[T].coherent)) && fieldok(dyntype(o), field) && supported(prepv(db.schemas[T], field, v0)) && supported(proj(o.content, field)) && rank(norm(prepv(db.schemas[T], field, v0))) != fieldrank(dyntype(o), field) && knownOp(operator) && imp(operator == "~=" && isVStr(norm(prepv(db.schemas[T], field, v0))), validPattern(vstr(norm(prepv(db.schemas[T], field, v0))))), errIs(result.err, ErrCasting))
+//@ ensures [C12 C19 search.invalid-pattern] imp((old(has(db.schemas, T)) || (has(db.schemas, T) && db.schemas[T].coherent)) && fieldok(dyntype(o), field) && supported(prepv(db.schemas[T], field, v0)) && rank(norm(prepv(db.schemas[T], field, v0))) == fieldrank(dyntype(o), field) && operator == "~=" && isVStr(norm(prepv(db.schemas[T], field, v0))) && !validPattern(vstr(norm(prepv(db.schemas[T], field, v0)))), result.err != nil)
+//@ ensures [C02 C12 search.sound] imp(result.err == nil && s.coherent, forall(y, 0, len(result.fields), has(s.ObjectIndex.ObjectIds, result.fields[y].ObjectId) && omatch(db, s, s.ObjectIndex.ObjectIds[result.fields[y].ObjectId], field, operator, pv) && result.fields[y].Value == norm(proj(value(db, s, s.ObjectIndex.ObjectIds[result.fields[y].ObjectId]), field)) && imp(constrain != nil, exists(x, 0, len(constrain), constrain[x].ObjectId == result.fields[y].ObjectId))))
+//@ ensures [C02 search.index-link] imp(result.err == nil && s.coherent && has(s.ObjectIndex.Fields, field), forallk(u, string, imp(has(s.ObjectIndex.uuids, u), has(s.ObjectIndex.Fields[field].objectIds, s.ObjectIndex.uuids[u]) && s.ObjectIndex.Fields[field].objectIds[s.ObjectIndex.uuids[u]].Value == norm(proj(value(db, s, u), field)))))
+//@ ensures [C02 C12 search.complete] imp(result.err == nil && s.coherent, forallk(u, string, imp(has(s.ObjectIndex.uuids, u) && omatch(db, s, u, field, operator, pv) && (constrain == nil || exists(x, 0, len(constrain), constrain[x].ObjectId == s.ObjectIndex.uuids[u])), exists(y, 0, len(result.fields), result.fields[y].ObjectId == s.ObjectIndex.uuids[u]))))
+//@ ensures [C02 search.distinct] imp(result.err == nil && s.coherent, forall(y, 0, len(result.fields), forall(z, y+1, len(result.fields), result.fields[y].ObjectId != result.fields[z].ObjectId)))
+//@ ensures [C13 search.order] imp(result.err == nil && has(s.ObjectIndex.Fields, field), forall(y, 0, len(result.fields), forall(z, y+1, len(result.fields), !klt(result.fields[y].Value, result.fields[z].Value))))
+//@ ensures [C20 search.fresh] imp(result.err == nil, fresh(arr(result.fields)))
+//@ ensures [C01 search.wf] wfDB(db)
+//@ ensures [C17 search.readonly] FSk == old(FSk) && FSc == old(FSc) && asyncwSame(db)
+//@ ensures [C01 search.others] db.schemas == old(db.schemas) && forallk(t, string, imp(t != T, has(db.schemas, t) == old(has(db.schemas, t)) && db.schemas[t] == old(db.schemas[t]))) && imp(old(has(db.schemas, T)), has(db.schemas, T) && db.schemas[T] == old(db.schemas[T]))
+//@ modifies iterator.i, MapDom[string,*Schema]@db.schemas, MapVal[string,*Schema]@db.schemas, MapCard[string,*Schema]@db.schemas, Async.routineStarted, MapDom[string,*objectMap]@db.cache.m, MapVal[string,*objectMap]@db.cache.m, MapCard[string,*objectMap]@db.cache.m, MapDom[string,Object], MapVal[string,Object], MapCard[string,Object]
+
+//@ func (*DB).Search
+//@ serves C02 C08 C09 C12 C13 C16 C19 C20
+//@ requires [wf] wfDB(db) && o != nil
+//@ requires [C09 lock-free] lockFree()
+//@ let T string := stypeOf(dyntype(o))
+//@ let v0 interface{} := value
+//@ ensures [C08 one-section] ACQ_H == old(ACQ_H) + 1 && lockFree()
+//@ ensures [C02 Search.result] result != nil && fresh(result) && result.db == db && wfSearch(result) && imp(result.err == nil, result.object == o && !result.reverse && result.limit == 18446744073709551615 && has(db.schemas, T))
+//@ ensures [C19 Search.unknown-field] imp((old(has(db.schemas, T)) || (has(db.schemas, T) && db.schemas[T].coherent)) && !fieldok(dyntype(o), field), errIs(result.err, ErrUnkownField))
+//@ ensures [C19 Search.unsupported-value] imp((old(has(db.schemas, T)) || (has(db.schemas, T) && db.schemas[T].coherent)) && fieldok(dyntype(o), field) && !supported(prepv(db.schemas[T], field, v0)), errIs(result.err, ErrUnknownKeyType))
+//@ ensures [C19 Search.unknown-operator] imp((old(has(db.schemas, T)) || (has(db.schemas, T) && db.schemas[T].coherent)) && fieldok(dyntype(o), field) && supported(prepv(db.schemas[T], field, v0)) && rank(norm(prepv(db.schemas[T], field, v0))) == fieldrank(dyntype(o), field) && !knownOp(operator), errIs(result.err, ErrUnkownSearchOperator))
+//@ ensures [C12 C19 Search.mistyped] imp((old(has(db.schemas, T)) || (has(db.schemas, T) && db.schemas[T].coherent)) && fieldok(dyntype(o), field) && supported(prepv(db.schemas[T], field, v0)) && supported(proj(o.content, field)) && rank(norm(prepv(db.schemas[T], field, v0))) != fieldrank(dyntype(o), field) && knownOp(operator) && imp(operator == "~=" && isVStr(norm(prepv(db.schemas[T], field, v0))), validPattern(vstr(norm(prepv(db.schemas[T], field, v0))))), errIs(result.err, ErrCasting))
+//@ ensures [C12 C19 Search.invalid-pattern] imp((old(has(db.schemas, T)) || (has(db.schemas, T) && db.schemas[T].coherent)) && fieldok(dyntype(o), field) && supported(prepv(db.schemas[T], field, v0)) && rank(norm(prepv(db.schemas[T], field, v0))) == fieldrank(dyntype(o), field) && operator == "~=" && isVStr(norm(prepv(db.schemas[T], field, v0))) && !validPattern(vstr(norm(prepv(db.schemas[T], field, v0)))), result.err != nil)
+//@ ensures [C02 C12 C16 Search.sound] imp(result.err == nil && db.schemas[T].coherent, forall(y, 0, len(result.fields), has(db.schemas[T].ObjectIndex.ObjectIds, result.fields[y].ObjectId) && omatch(db, db.schemas[T], db.schemas[T].ObjectIndex.ObjectIds[result.fields[y].ObjectId], field, operator, prepv(db.schemas[T], field, v0))))
+//@ ensures [C02 C12 C16 Search.complete] imp(result.err == nil && db.schemas[T].coherent, forallk(u, string, imp(has(db.schemas[T].ObjectIndex.uuids, u) && omatch(db, db.schemas[T], u, field, operator, prepv(db.schemas[T], field, v0)), exists(y, 0, len(result.fields), result.fields[y].ObjectId == db.schemas[T].ObjectIndex.uuids[u]))))
+//@ ensures [C02 Search.distinct] imp(result.err == nil && db.schemas[T].coherent, forall(y, 0, len(result.fields), forall(z, y+1, len(result.fields), result.fields[y].ObjectId != result.fields[z].ObjectId)))
+//@ ensures [C13 Search.order] imp(result.err == nil && db.schemas[T].coherent && has(db.schemas[T].ObjectIndex.Fields, field), forall(y, 0, len(result.fields), forall(z, y+1, len(result.fields), !klt(norm(proj(value(db, db.schemas[T], db.schemas[T].ObjectIndex.ObjectIds[result.fields[y].ObjectId]), field)), norm(proj(value(db, db.schemas[T], db.schemas[T].ObjectIndex.ObjectIds[result.fields[z].ObjectId]), field))))))
+//@ ensures [C20 Search.fresh] imp(result.err == nil, fresh(arr(result.fields)))
+//@ ensures [C01 Search.wf] wfDB(db)
+//@ ensures [C17 Search.readonly] FSk == old(FSk) && FSc == old(FSc) && asyncwSame(db)
+//@ modifies Ghost.ACQ_H, iterator.i, MapDom[string,*Schema]@db.schemas, MapVal[string,*Schema]@db.schemas, MapCard[string,*Schema]@db.schemas, Async.routineStarted, MapDom[string,*objectMap]@db.cache.m, MapVal[string,*objectMap]@db.cache.m, MapCard[string,*objectMap]@db.cache.m, MapDom[string,Object], MapVal[string,Object], MapCard[string,Object]
+
+//@ func (*Search).And
+//@ serves C02 C08 C09 C12 C13 C16 C19 C20
+//@ requires [wf] wfSearch(s) && s.db != nil && imp(s.err == nil, wfDB(s.db) && distinctIds(s.fields))
+//@ requires [C09 lock-free] lockFree()
+//@ let db *DB := s.db
+//@ let T string := stypeOf(dyntype(s.object))
+//@ let v0 interface{} := value
+//@ let e0 error := s.err
+//@ let f0 []*indexedField := s.fields
+//@ ensures [C02 And.error-sticks] imp(e0 != nil, result == s && s.err == e0 && ACQ_H == old(ACQ_H))
+//@ ensures [C08 one-section] imp(e0 == nil, ACQ_H == old(ACQ_H) + 1) && lockFree()
+//@ ensures [C02 And.result] imp(e0 == nil, result != nil && fresh(result) && result.db == db && wfSearch(result) && imp(result.err == nil, result.object == s.object && has(db.schemas, T)))
+//@ ensures [C02 C12 C16 And.sound] imp(e0 == nil && result.err == nil && db.schemas[T].coherent, forall(y, 0, len(result.fields), has(db.schemas[T].ObjectIndex.ObjectIds, result.fields[y].ObjectId) && omatch(db, db.schemas[T], db.schemas[T].ObjectIndex.ObjectIds[result.fields[y].ObjectId], field, operator, prepv(db.schemas[T], field, v0)) && exists(x, 0, len(f0), f0[x].ObjectId == result.fields[y].ObjectId)))
+//@ ensures [C02 C12 C16 And.complete] imp(e0 == nil && result.err == nil && db.schemas[T].coherent, forallk(u, string, imp(has(db.schemas[T].ObjectIndex.uuids, u) && omatch(db, db.schemas[T], u, field, operator, prepv(db.schemas[T], field, v0)) && exists(x, 0, len(f0), f0[x].ObjectId == db.schemas[T].ObjectIndex.uuids[u]), exists(y, 0, len(result.fields), result.fields[y].ObjectId == db.schemas[T].ObjectIndex.uuids[u]))))
+//@ ensures [C02 And.distinct] imp(e0 == nil && result.err == nil && db.schemas[T].coherent, distinctIds(result.fields))
+//@ ensures [C13 And.order] imp(e0 == nil && result.err == nil && has(db.schemas[T].ObjectIndex.Fields, field), forall(y, 0, len(result.fields), forall(z, y+1, len(result.fields), !klt(result.fields[y].Value, result.fields[z].Value))))
+//@ ensures [C20 And.fresh] imp(e0 == nil && result.err == nil, fresh(arr(result.fields)))
+//@ ensures [C20 And.receiver-untouched] s.fields == f0 && forall(x, 0, len(f0), f0[x] == old(f0[x]))
+//@ ensures [C01 And.wf] imp(e0 == nil, wfDB(db))
+//@ ensures [C17 And.readonly] FSk == old(FSk) && FSc == old(FSc)
+//@ modifies Ghost.ACQ_H, iterator.i, MapDom[string,*Schema]@s.db.schemas, MapVal[string,*Schema]@s.db.schemas, MapCard[string,*Schema]@s.db.schemas, Async.routineStarted, MapDom[string,*objectMap]@s.db.cache.m, MapVal[string,*objectMap]@s.db.cache.m, MapCard[string,*objectMap]@s.db.cache.m, MapDom[string,Object], MapVal[string,Object], MapCard[string,Object]
+
+//@ func (*Search).Or
+//@ serves C02 C08 C09 C12 C16 C19 C20
+//@ requires [wf] wfSearch(s) && s.db != nil && imp(s.err == nil, wfDB(s.db) && distinctIds(s.fields))
+//@ requires [C09 lock-free] lockFree()
+//@ let db *DB := s.db
+//@ let T string := stypeOf(dyntype(s.object))
+//@ let v0 interface{} := value
+//@ let e0 error := s.err
+//@ let f0 []*indexedField := s.fields
+//@ ghost src garray[int]int := src
+//@ ghost dst garray[int]int := dst
+//@ ensures [C02 Or.error-sticks] imp(e0 != nil, result == s && s.err == e0 && ACQ_H == old(ACQ_H))
+//@ ensures [C08 one-section] imp(e0 == nil, ACQ_H == old(ACQ_H) + 1) && lockFree()
+//@ ensures [C02 Or.result] imp(e0 == nil, result != nil && fresh(result) && result.db == db && wfSearch(result) && imp(result.err == nil, result.object == s.object && has(db.schemas, T)))
+//@ ensures [C02 C12 C16 Or.sound] imp(e0 == nil && result.err == nil && db.schemas[T].coherent, forall(y, 0, len(result.fields), (has(db.schemas[T].ObjectIndex.ObjectIds, result.fields[y].ObjectId) && omatch(db, db.schemas[T], db.schemas[T].ObjectIndex.ObjectIds[result.fields[y].ObjectId], field, operator, prepv(db.schemas[T], field, v0))) || (0 <= src[y] && src[y] < len(f0) && f0[src[y]] == result.fields[y])))
+//@ ensures [C02 C12 C16 Or.complete-new] imp(e0 == nil && result.err == nil && db.schemas[T].coherent, forallk(u, string, imp(has(db.schemas[T].ObjectIndex.uuids, u) && omatch(db, db.schemas[T], u, field, operator, prepv(db.schemas[T], field, v0)), exists(y, 0, len(result.fields), result.fields[y].ObjectId == db.schemas[T].ObjectIndex.uuids[u]))))
+//@ ensures [C02 Or.complete-old] imp(e0 == nil && result.err == nil && db.schemas[T].coherent, forall(x, 0, len(f0), 0 <= dst[x] && dst[x] < len(result.fields) && result.fields[dst[x]].ObjectId == f0[x].ObjectId))
+//@ ensures [C02 Or.distinct] imp(e0 == nil && result.err == nil && db.schemas[T].coherent, distinctIds(result.fields))
+//@ ensures [C20 Or.fresh] imp(e0 == nil && result.err == nil, fresh(arr(result.fields)))
+//@ ensures [C20 Or.receiver-untouched] s.fields == f0 && forall(x, 0, len(f0), f0[x] == old(f0[x]))
+//@ ensures [C01 Or.wf] imp(e0 == nil, wfDB(db))
+//@ ensures [C17 Or.readonly] FSk == old(FSk) && FSc == old(FSc)
+//@ loop 1 ghost w garray[uint64]int
+//@ loop 1 update w id := ite(id == new.fields[rangeindex+1].ObjectId, rangeindex+1, w[id])
+//@ loop 1 invariant [bounds] (-1 <= rangeindex && rangeindex < len(new.fields)) || (rangeindex == -1 && len(new.fields) == 0)
+//@ loop 1 invariant [frame] preserved(MapDom[uint64,bool], MapVal[uint64,bool], MapCard[uint64,bool])
+//@ loop 1 invariant [marked] marked != nil && fresh(marked)
+//@ loop 1 invariant [marked-all] forall(y, 0, rangeindex+1, has(marked, new.fields[y].ObjectId))
+//@ loop 1 invariant [marked-only] forallk(id, uint64, imp(has(marked, id), 0 <= w[id] && w[id] <= rangeindex && new.fields[w[id]].ObjectId == id && trig(w[id])))
+//@ loop 1 decreases len(new.fields) - rangeindex
+//@ loop 2 snap S2
+//@ loop 2 let n0 int := len(new.fields)
+//@ loop 2 ghost src garray[int]int
+//@ loop 2 ghost dst garray[int]int
+//@ loop 2 ghost nf int := len(new.fields)
+//@ loop 2 update nf := len(new.fields)
+//@ loop 2 update src y := ite(len(new.fields) > nf && y == len(new.fields) - 1, rangeindex+1, src[y])
+//@ loop 2 update dst x := ite(x == rangeindex+1, ite(len(new.fields) > nf, len(new.fields) - 1, w[s.fields[rangeindex+1].ObjectId]), dst[x])
+//@ loop 2 invariant [bounds] (-1 <= rangeindex && rangeindex < len(s.fields)) || (rangeindex == -1 && len(s.fields) == 0)
+//@ loop 2 invariant [frame] preserved(Elem[*indexedField], Search.fields, Search.err, Search.db, Search.object, Search.limit, Search.reverse) && s.fields == f0 && new != s
+//@ loop 2 invariant [new] new != nil && fresh(new) && fresh(arr(new.fields)) && new.err == nil && nf == len(new.fields) && n0 <= len(new.fields) && len(new.fields) <= n0 + rangeindex + 1 && new.db == db && new.object == s.object
+//@ loop 2 invariant [prefix] forall(y, 0, n0, new.fields[y] == since(S2, old(new.fields[y])))
+//@ loop 2 invariant [tail] forall(y, n0, len(new.fields), 0 <= src[y] && src[y] <= rangeindex && new.fields[y] == s.fields[src[y]] && !has(marked, new.fields[y].ObjectId))
+//@ loop 2 invariant [tail-mono] forall(y, n0, len(new.fields), forall(z, y+1, len(new.fields), touch(new.fields[y]) && touch(new.fields[z]) && src[y] < src[z]))
+//@ loop 2 invariant [old-covered] forall(x, 0, rangeindex+1, 0 <= dst[x] && dst[x] < len(new.fields) && new.fields[dst[x]].ObjectId == s.fields[x].ObjectId)
+//@ loop 2 decreases len(s.fields) - rangeindex
+//@ modifies Ghost.ACQ_H, iterator.i, MapDom[string,*Schema]@s.db.schemas, MapVal[string,*Schema]@s.db.schemas, MapCard[string,*Schema]@s.db.schemas, Async.routineStarted, MapDom[string,*objectMap]@s.db.cache.m, MapVal[string,*objectMap]@s.db.cache.m, MapCard[string,*objectMap]@s.db.cache.m, MapDom[string,Object], MapVal[string,Object], MapCard[string,Object]
+//@ allocates Search.db, Search.object, Search.fields, Search.limit, Search.reverse, Search.err, Elem[*indexedField], MapDom[uint64,bool], MapVal[uint64,bool], MapCard[uint64,bool]
